@@ -4,38 +4,95 @@ CXX = ['-D__TBB_BUILD', '-mwaitpkg', '-mrtm']
 # the coroutine / sleeping-thread classes (resume_task, task_proxy, resume_node, wait_node) cannot occur in the one-thread world
 DEVIRT = ['function_task', 'function_stack_task', 'task_handle_task', 'reference_vertex', 'wait_context_vertex', '_ZN3tbb6detail2d14taskD',
           'start_for', 'start_reduce', 'start_deterministic_reduce']
-CB = ['--unwind', '10', '--object-bits', '12', '--paths', 'lifo']   # path-wise symbolic execution: every path of the symbolic throw mask is explored and decided separately
-NCF = ['-fno-sanitize=null']   # libstdc++'s hashtable forms &node->field from a null node pointer without accessing it
+# '--paths lifo' = path-wise symbolic execution: every path of the symbolic throw mask is explored and decided (feasibility + all
+# assertions) by its own SAT query; along one path all pointers stay concrete, which merged symbolic execution does not achieve here
+CB = ['--unwind', '10', '--object-bits', '12', '--paths', 'lifo']
 CB2 = ['--unwind', '26', '--object-bits', '12', '--paths', 'lifo']
+NCF = ['-fno-sanitize=null']   # native replay: libstdc++'s hashtable forms &node->field from a null node pointer without accessing it
+COMMON = dict(mode='seq', cxxflags=CXX, exceptions=True, prune=True, inline_threshold=225, devirt=DEVIRT,
+              m1ptr=True,        # LockedTaskPool = (task**)-1 sentinel
+              ptratomics=True)   # arena_slot::task_pool is CASed as i64 in the IR: retyped to a pointer so that cbmc can decide the comparisons
 UNITS = {
-  'tg': dict(wrapper='w_tg.cpp', mode='seq', cxxflags=CXX, exceptions=True, prune=True, inline_threshold=225,
-             cut=['receive_or_steal_task'], devirt=DEVIRT, m1ptr=True, ptratomics=True),
-  'pf': dict(wrapper='w_pf.cpp', mode='seq', cxxflags=CXX, exceptions=True, prune=True, inline_threshold=225,
-             cut=['receive_or_steal_task', 'r114notify_waitersEm'], devirt=DEVIRT, m1ptr=True, ptratomics=True),
+  # receive_or_steal_task is cut: entering it in the one-thread world means "no local work but the wait is not released" = would spin forever
+  'tg': dict(wrapper='w_tg.cpp', cut=['receive_or_steal_task'], **COMMON),
+  # r1::notify_waiters is cut as well and counted: "the wait_context of the call reaches zero exactly once"
+  'pf': dict(wrapper='w_pf.cpp', cut=['receive_or_steal_task', 'r114notify_waitersEm'], **COMMON),
 }
+TG = dict(unit='tg', harness='h_tg.c', cbmc=CB, timeout=600, thorough_override={'timeout': 3600}, native_cflags=NCF)
+PF = dict(unit='pf', harness='h_pf.c', cbmc=CB2, timeout=600, thorough_override={'timeout': 3600}, native_cflags=NCF)
+ORACLE_TG = ('oracle: every body at most once and none after its group captured an exception or after the wait returned; wait() rethrows iff '
+             'work of the group threw, the rethrown object is the one thrown, exactly one rethrow per reporting wait; wait never returns with '
+             'tasks left in the pool or the wait reference unreleased (would-spin-forever); context not cancelled after wait and group reusable; '
+             'exception objects, tbb_exception_ptr storage and task objects released exactly once')
 HARNESSES = [
-  dict(name='tg_wait', unit='tg', harness='h_tg.c', defines={'SCEN': 1}, scenarios=[{'N': 1, 'REUSE': 0}, {'N': 2, 'REUSE': 1}], scenarios_thorough=[{'N': 1, 'REUSE': 1}, {'N': 2, 'REUSE': 1}, {'N': 3, 'REUSE': 1}, {'N': 4, 'REUSE': 0}],
-       cbmc=CB, timeout=600, thorough_override={'timeout': 3600}, native_cflags=NCF,
-       desc='real task_group::run x N + wait() on the real dispatcher loop, symbolic subset of bodies throws', bounds={'tasks': 'N', 'threads': 1}),
-  dict(name='tg_run_and_wait', unit='tg', harness='h_tg.c', defines={'SCEN': 2}, scenarios=[{'N': 1}, {'N': 2}], scenarios_thorough=[{'N': 0}, {'N': 1}, {'N': 2}, {'N': 3}],
-       cbmc=CB, timeout=600, thorough_override={'timeout': 3600}, native_cflags=NCF,
-       desc='real task_group::run x N + run_and_wait(f) (function_stack_task executed without spawn), symbolic subset of the N+1 bodies throws', bounds={'tasks': 'N+1', 'threads': 1}),
-  dict(name='tg_nested', unit='tg', harness='h_tg.c', defines={'SCEN': 3}, scenarios=[{'N': 1, 'CATCH': 1}, {'N': 2, 'CATCH': 0}],
+  dict(name='tg_wait', defines={'SCEN': 1}, scenarios=[{'N': 1, 'REUSE': 0}, {'N': 2, 'REUSE': 1}],
+       scenarios_thorough=[{'N': 1, 'REUSE': 1}, {'N': 2, 'REUSE': 1}, {'N': 3, 'REUSE': 1}, {'N': 4, 'REUSE': 0}, {'N': 4, 'REUSE': 1}],
+       desc='real task_group::run x N, wait() [, run again + wait() on the same group] executed by the real task_dispatcher::local_wait_for_all (its catch handler, '
+            'cancel_group_execution, tbb_exception_ptr, re-dispatch of the throwing task through cancel()), execute_and_wait rethrow, task_group::wait on_completion reset; '
+            'symbolic subset of the bodies throws. ' + ORACLE_TG,
+       bounds={'tasks': 'N (+1 in the reuse phase)', 'threads': 1, 'throwing bodies': 'every subset'}, **TG),
+  dict(name='tg_run_and_wait', defines={'SCEN': 2}, scenarios=[{'N': 1}, {'N': 2}], scenarios_thorough=[{'N': 0}, {'N': 1}, {'N': 2}, {'N': 3}],
+       desc='real task_group::run x N + run_and_wait(f): function_stack_task executed without spawn by execute_and_wait, siblings from the pool; symbolic subset of the N+1 bodies throws. ' + ORACLE_TG,
+       bounds={'tasks': 'N+1', 'threads': 1, 'throwing bodies': 'every subset'}, **TG),
+  dict(name='tg_nested', defines={'SCEN': 3}, scenarios=[{'N': 1, 'CATCH': 1}, {'N': 2, 'CATCH': 0}],
        scenarios_thorough=[{'N': n, 'CATCH': c} for n in (1, 2, 3) for c in (0, 1)],
-       cbmc=CB, timeout=600, thorough_override={'timeout': 3600}, native_cflags=NCF,
-       desc='nested groups', bounds={'tasks': 'N+2', 'threads': 1}),
+       desc='nested groups: a task of the outer group creates an inner task_group (context bound to the outer one), runs N tasks and waits (nested dispatch loop) while a sibling of the '
+            'outer group is still in the pool; CATCH=1: the task handles the inner wait\'s exception, CATCH=0: it lets it escape (captured again by the outer group, rethrown by the outer '
+            'wait). Symbolic subset of the N+2 bodies throws. ' + ORACLE_TG + '; the inner group\'s exception does not cancel the outer group unless it escapes',
+       bounds={'tasks': 'N inner + 2 outer', 'threads': 1, 'throwing bodies': 'every subset'}, **TG),
+  dict(name='tg_outer_throw', defines={'SCEN': 4}, scenarios=[{'N': 1}],
+       desc='an exception of the OUTER group while nested groups have work: outer task A spawns a task of inner group g1 and then a task X of the outer group and waits for g1, so the nested '
+            'dispatch loop runs X first; if X throws, the outer context is cancelled: the pending g1 task and the task of a group g2 created afterwards must not start (state propagation to bound '
+            'children / inheritance at bind time), g1.wait()/g2.wait() report canceled without throwing, the outer wait rethrows X\'s exception. Symbolic subset of {B, X, g1 task, g2 task} throws. ' + ORACLE_TG,
+       bounds={'tasks': '2 outer + X + 1 per inner group', 'threads': 1, 'throwing bodies': 'every subset'}, **TG),
+  dict(name='pfor', defines={'ALGO': 1}, scenarios=[{'N': 3}, {'N': 4}], scenarios_thorough=[{'N': n} for n in range(1, 9)],
+       desc='real parallel_for(Range, Body, simple_partitioner) over [0,N), one leaf task per element: start_for::run/execute/offer_work/cancel/finalize, tree_node fold_tree, on the real dispatcher loop; '
+            'symbolic subset of the elements throws. Oracle: the call rethrows iff a body threw, the object thrown first, once; no body invocation after the capture; every element at most once '
+            '(exactly once if nothing threw); every Range and Body copy destroyed exactly once and none alive (except the user\'s) when the call returns; tasks/tree nodes released exactly once; '
+            'wait_context reaches zero exactly once; pool empty; never would-spin-forever',
+       bounds={'elements': 'N', 'threads': 1, 'throwing elements': 'every subset'}, **PF),
+  dict(name='pdreduce', defines={'ALGO': 2}, scenarios=[{'N': 3}, {'N': 4}], scenarios_thorough=[{'N': n} for n in range(1, 9)],
+       desc='real parallel_deterministic_reduce(simple_partitioner) over [0,N): start_deterministic_reduce + deterministic_reduction_tree_node (split body per right child) on the real dispatcher loop; '
+            'oracle of pfor plus: join is never called once the group captured an exception, joins are adjacent, split bodies destroyed exactly once, full interval reduced if nothing threw',
+       bounds={'elements': 'N', 'threads': 1, 'throwing elements': 'every subset'}, **PF),
+  dict(name='preduce', defines={'ALGO': 3}, scenarios=[{'N': 3}], scenarios_thorough=[{'N': n} for n in range(1, 9)],
+       desc='real parallel_reduce(simple_partitioner) over [0,N): start_reduce cancel/finalize/fold paths on the real dispatcher loop (no zombie body arises with one thread); oracle of pfor',
+       bounds={'elements': 'N', 'threads': 1, 'throwing elements': 'every subset'}, **PF),
 ]
-HARNESSES += [
-  dict(name='pfor', unit='pf', harness='h_pf.c', defines={'ALGO': 1}, scenarios=[{'N': 2}, {'N': 3}], scenarios_thorough=[{'N': n} for n in (1, 2, 3, 4, 5, 6)],
-       cbmc=CB2, timeout=900, thorough_override={'timeout': 3600}, native_cflags=NCF,
-       desc='real parallel_for(simple_partitioner) over [0,N) on the real dispatcher loop, symbolic subset of elements throws', bounds={'elements': 'N', 'threads': 1}),
-  dict(name='pdreduce', unit='pf', harness='h_pf.c', defines={'ALGO': 2}, scenarios=[{'N': 2}, {'N': 3}], scenarios_thorough=[{'N': n} for n in (1, 2, 3, 4, 5, 6)],
-       cbmc=CB2, timeout=900, thorough_override={'timeout': 3600}, native_cflags=NCF,
-       desc='real parallel_deterministic_reduce(simple_partitioner) over [0,N) on the real dispatcher loop, symbolic subset of elements throws', bounds={'elements': 'N', 'threads': 1}),
-  dict(name='preduce', unit='pf', harness='h_pf.c', defines={'ALGO': 3}, scenarios=[{'N': 3}], scenarios_thorough=[{'N': n} for n in (1, 2, 3, 4, 5, 6)],
-       cbmc=CB2, timeout=900, thorough_override={'timeout': 3600}, native_cflags=NCF,
-       desc='real parallel_reduce(simple_partitioner) over [0,N) on the real dispatcher loop, symbolic subset of elements throws', bounds={'elements': 'N', 'threads': 1}),
+MANIFEST = dict(
+  level_text='Bounded symbolic execution of the real exception path of the scheduler in a one-thread world: the real task_dispatcher::local_wait_for_all loop with its catch(...) handler, '
+             'task_group_context cancel_group_execution/reset/destroy, tbb_exception_ptr, execute_and_wait\'s rethrow, arena_slot spawn/get_task, r1::spawn/wait, get_thread_reference_vertex, and on top of it '
+             'the real task_group (run, wait, run_and_wait, nested groups with bound contexts, reuse after an exception) and the real parallel_for / parallel_deterministic_reduce / parallel_reduce task '
+             'classes (execute, cancel, finalize, fold_tree, join). Which body invocations throw is a symbolic bit mask (every subset); each resulting path is decided by SAT. Asserted: at most one '
+             'execution per body, no body starts after its group captured an exception or after the waiting call returned, the waiting call rethrows iff the group\'s work threw, exactly once, the very '
+             'object that was thrown, and only after the pool is drained and the wait reference released (a lost release is reported as "would spin forever"); the group is reusable afterwards; '
+             'exception objects, tbb_exception_ptr, task objects, tree nodes and every Range/Body copy are released exactly once; reduction joins are skipped after cancellation.',
+  level_note='One model thread only: races between two throwers / a thrower and a thief, worker-side catch, stolen-task paths and zombie bodies of parallel_reduce are outside (winner election of '
+             'cancel_group_execution is C04). Bounds: <= 4 tasks (+reuse) per group, <= 3 inner + 2 outer tasks nested, <= 8 range elements (thorough). The C++ exception ABI and std::exception_ptr are '
+             'modelled by the reference-counting runtime in rt/vp.h; task storage (small_object_pool), arena construction and thread registration are harness/wrapper stubs listed in evidence. '
+             'Trusted: clang-14 IR, tools/ir2c.py incl. its exception lowering, tools/devirt.py, cbmc.',
+)
+OUTSIDE = [
+  'more than one thread: two bodies throwing concurrently, a throw racing with a steal, exceptions on worker threads (outermost_worker_waiter), stolen/affinitized tasks (task_proxy, mailboxes), zombie bodies of parallel_reduce',
+  'task_arena::execute / isolate exception transport, flow graph, parallel_pipeline, parallel_for_each, parallel_invoke, parallel_scan/sort; auto/affinity/static partitioners',
+  'exceptions thrown by Range copy/split constructors, Body copy/split constructors or join()',
+  'global_control terminate_on_exception, std::exception_ptr implementation (libstdc++), rethrow_exception_broken work-around',
+  'resumable tasks / coroutines, critical tasks, enqueue; arena and market construction (vp_setup replicates the fields the dispatcher reads)',
+  'task_group_base destructor without wait (missing_wait), structured_task_group / isolated_task_group, task_handle API',
 ]
-OUTSIDE = []
-STUBS = []
-ASSUMPTIONS = []
+STUBS = [
+  'C++ exception ABI (__cxa_allocate_exception/throw/begin_catch/end_catch/rethrow, _Unwind_Resume) and std::current_exception / exception_ptr copy, release / rethrow_exception: reference-counting model in rt/vp.h (VP_DEFINE_EPTR_STUBS)',
+  'r1::allocate / r1::deallocate (small_object_pool): fresh typed storage per allocation, never reused; leak / double release / wrong size are checked',
+  'cache_aligned_allocate / allocate_memory: malloc (typed storage for the 64-entry task pool and the context_list); operator delete: free',
+  'pthread_getspecific: the single thread_data; governor::init_external_thread, wait_on_address, futex syscall, coroutine entry points: unreachable (assertion)',
+  'global_control::active_value(terminate_on_exception) = 0; arena::request_workers / out_of_work / observers: no-op; notify_by_address_one: no-op (nobody sleeps)',
+  'task_dispatcher::receive_or_steal_task (cut): reaching it = the dispatcher has no local work but the wait is not released = assertion failure, path ends',
+  'r1::notify_waiters (cut in unit pf): counted, no sleeper to wake',
+  'threading_control::propagate_task_group_state forwards to a real cancellation_disseminator knowing the one thread; arena::get_waiting_threads_monitor returns a real, empty thread_control_monitor',
+  'std::__detail::_Prime_rehash_policy::_M_need_rehash (libstdc++.so): never rehash (single bucket) for the dispatcher\'s reference-vertex map',
+]
+ASSUMPTIONS = [
+  'the waiting thread is an external thread occupying slot 0 of an arena with 2 slots; no worker ever joins (advertise_new_work / request_workers have no effect)',
+  'user bodies throw an exception of one user type or return normally; they do not call back into the group except as coded in the scenario',
+  'a violated oracle check inside an observer ends that path (assert + assume), so that a re-executed task does not spin in the dispatcher',
+]
